@@ -72,6 +72,15 @@ def relations(chk: core.Check, d):
     for n, w in d['missing_from_schema'].items():
         chk.case(('accepted', n), True)
         chk.fail(f'C19/missing-from-schema/{n}', f"input parameter '{n}' is accepted by {', '.join(w)} but is not in the generated request schema", {'name': n, 'accepted_by': w})
+    # 6. names a module picks up directly from the input (without declaring a parameter): accepted inputs too, so they must be published
+    #    (source-level relation evaluated here on the AST scan; the kernel-decided clauses above cover the declared parameters)
+    known_adhoc = {'AddOn Nickname 1'}     # the switch line of the add-on block ('AddOn Nickname <n>' is declared per add-on at run time)
+    published = set(d['request_names']) | set(d['missing_from_schema'])
+    for n, where in d.get('adhoc_lookups', []):
+        chk.case(('adhoc', n), True)
+        if n not in published and n not in known_adhoc:
+            chk.fail(f'C19/accepted-ad-hoc-not-in-schema/{n}', f"{where} accepts an input named '{n}' by looking it up directly in the input, but no parameter of that name is declared or published", {'name': n, 'file': where})
+    chk.coverage['adhoc_lookups'] = len(d.get('adhoc_lookups', []))
     chk.coverage['tables'] = {k: d[k] for k in ('n_request', 'n_enumerated', 'n_accepted', 'n_identical', 'strings')}
     chk.coverage['not_identically_defined'] = d['differing']
     chk.sample({'request_entry': d['rows_gen'][0]})
